@@ -171,3 +171,13 @@ func valueTwin(rt *rapid.T, values map[string]model.AV, o gen.AVOpts) map[string
 	}
 	return out
 }
+
+// sortedKeys returns the keys of a placeholder map in order.
+func sortedKeys(m map[string]string) []string {
+	out := make([]string, 0, len(m))
+	for k := range m {
+		out = append(out, k)
+	}
+	sort.Strings(out)
+	return out
+}
